@@ -5,12 +5,14 @@ import Dm.Driver.ErrCmd
 import Dm.Driver.TfCmd
 import Dm.Driver.FsCmd
 import Dm.Driver.DtCmd
+import Dm.Driver.OpsCmd
 
 /- Line-protocol driver of the Lean model: one request per line, one answer per line. -/
 
 def handle (line : String) : String :=
   let l := line.trimAscii.toString
   if l.startsWith "fx " then Dm.FmtXCmd.cmdFx (l.drop 3).toString else
+  if l.startsWith "op " then Dm.OpsCmd.cmdOp (l.drop 3).toString else
   if l.startsWith "tf " then Dm.TfCmd.cmdTf (l.drop 3).toString else
   if l.startsWith "sp " then Dm.SplitCmd.cmdSplit (l.drop 3).toString else
   match l.splitOn " " with
